@@ -244,10 +244,13 @@ var properties = map[string]*propDef{
 		Real:  []string{"a whole Synnax distribution layer per node, wired as core/pkg/distribution/mock wires it: aspen (cluster membership, kv gossip), channel service, framer (writer, iterator, relay, deleter), ontology, group, one pebble and one cesium per node on in-memory file systems — real code", "the cluster's goroutines run freely inside a testing/synctest bubble (virtual time, quiescence); case outcomes are a function of the request script (op tier), the harness waits for propagation instead of choosing interleavings"},
 		Stub:  []string{"transports: the repository's own in-memory mocks (aspen/transport/mock, distribution/transport/mock)", "math/rand and google/uuid seeded from the case", "no seeded goroutine scheduler and no message faults in this engine: requests are sequential; concurrency of channel requests is not explored"},
 		Assumptions: []string{"model: the set of live channels (key, leaseholder, name, data type, index, is_index, virtual) predicted from the requests, seeded with each node's internal channels; calculated channels are free and virtual and bring a '<name>_time' free index", "a FAILED request may leave behind any part of what it asked for (the statement does not make requests atomic) and nothing else; what it left is adopted and the two stores must still agree with each other", "with the two options, names within a batch are distinct, and MapRename gets one entry (otherwise outcomes depend on Go map order inside the service)", "when gossip of a write dies out (recorded C06 finding) the harness restarts the rumour with a change-nothing write at the authority, so the comparison is not blamed on C06"},
-		RequiredProbes: []string{"created_index_local", "created_index_remote", "created_data_local", "created_data_remote", "created_virtual_local", "created_virtual_remote", "created_free_free-at-bootstrapper", "created_free_free-via-peer", "created_calculated_free-via-peer", "renamed_index_remote", "renamed_virtual_local", "renamed_free_free-via-peer", "deleted_index_remote", "deleted_virtual_local", "deleted_data_remote", "deleted_free_free-via-peer", "deleted_calculated_free-at-bootstrapper", "create_batch_failed", "delete_batch_failed", "rename_batch_failed", "failed_request_partly_applied", "create_returned_existing_channel", "overwrite_replaced_a_channel", "calculated_auto_index_created", "retrieve_if_name_exists_met_a_name_several_channels_have", "request_in_transaction", "request_without_transaction", "restart_services", "deleted_channel_refused_everywhere"},
+		RequiredProbes: []string{"created_index_local", "created_index_remote", "created_data_local", "created_data_remote", "created_virtual_local", "created_virtual_remote", "created_free_free-at-bootstrapper", "created_free_free-via-peer", "created_calculated_free-via-peer", "renamed_index_remote", "renamed_virtual_local", "renamed_free_free-via-peer", "deleted_index_remote", "deleted_virtual_local", "deleted_data_remote", "deleted_free_free-via-peer", "deleted_calculated_free-at-bootstrapper", "create_batch_failed", "delete_batch_failed", "rename_batch_failed", "failed_request_partly_applied", "create_returned_existing_channel", "overwrite_replaced_a_channel", "calculated_auto_index_created", "retrieve_if_name_exists_met_a_name_several_channels_have", "request_in_transaction", "request_without_transaction", "restart_services", "deleted_channel_refused_everywhere", "concurrent_reservations_case", "restart_between_rounds"},
 		Units: []unit{{
 			Name: "core-channel", Module: "core", Package: "./pkg/distribution/channel", Passes: []string{"detrange"}, Engines: []string{"c15"},
 			QuickBudget: 30 * time.Second, QuickWorkers: 8, ThoroughBudget: 12 * time.Minute, ThoroughWorkers: 16,
+		}, {
+			Name: "core-channel-counter", Module: "core", Package: "./pkg/distribution/channel", Passes: allPasses, Engines: []string{"c15-counter"},
+			QuickBudget: 8 * time.Second, QuickWorkers: 4, ThoroughBudget: 2 * time.Minute, ThoroughWorkers: 16,
 		}},
 	},
 	"C16": {
